@@ -334,6 +334,7 @@ class SecopClient(ProxyClient):
         self.uri = uri
         self.nodename = uri
         self._lock = RLock()
+        self._pending_lock = RLock()  # tx thread parks a request <-> rx thread requeues parked requests
         self._shutdown = Event()
         self.cleanup = []
         self.register_callback(None, self.handleError)
@@ -418,11 +419,15 @@ class SecopClient(ProxyClient):
                 key = (reply_action, request[1])  # action and identifier
             else:  # allow experimental unknown requests, but only one at a time
                 key = None
-            if key in self.active_requests:
-                # store to requeue after the next reply was received
-                self.pending.put(entry)
-            else:
-                self.active_requests[key] = entry
+            with self._pending_lock:
+                # the check and the parking must be one step for the rx thread
+                parked = key in self.active_requests
+                if parked:
+                    # store to requeue after the next reply was received
+                    self.pending.put(entry)
+                else:
+                    self.active_requests[key] = entry
+            if not parked:
                 line = encode_msg_frame(*request)
                 self.log.debug('TX: %r', line)
                 self.io.send(line)
@@ -503,10 +508,11 @@ class SecopClient(ProxyClient):
                     continue
                 entry[2] = action, ident, data
                 entry[1].set()  # trigger event
-                while not self.pending.empty():
-                    # let the TX thread sort out which entry to treat
-                    # this may have bad performance, but happens rarely
-                    self.txq.put(self.pending.get())
+                with self._pending_lock:
+                    while not self.pending.empty():
+                        # let the TX thread sort out which entry to treat
+                        # this may have bad performance, but happens rarely
+                        self.txq.put(self.pending.get())
         except ConnectionClosed:
             pass
         except Exception as e:
